@@ -5,33 +5,44 @@ READY = True
 
 META = {
     "technique": "Lean 4 proof (constant folder sound for the run-time semantics of the emitted jump/compare code, for every "
-                 "implementation of the shared value operations; hoisting lemma) + differential runs: every hoisting variant of "
-                 "generated literal expressions on the real engine, real as_const / instruction stream / values against the model",
+                 "implementation of the shared value operations; hoisting lemma; operator and traversal tables regenerated from the "
+                 "source) + differential runs: every hoisting variant of generated expressions and statements on the real engine, "
+                 "real as_const / instruction stream / values against the model",
     "category": "proof",
     "text": "Kernel-checked theorems about a transcription of Expr::as_const/eval_binop/eval_compare (folder), of what the emitted "
             "instructions compute (short-circuit jumps returning the operand, CompareAndPreserve chains, op_binop! undefined "
-            "assertions, Not/In/Neg, list/tuple/map construction, static keyword arguments) and of compile_expr's fold-first "
-            "scheme: whenever the folder yields a value, run-time evaluation yields the same value in every mode and context "
-            "(so it never masks an error); the emitted code computes exactly the unfolded run-time semantics; replacing any "
-            "subset of literal sub-expressions by variables bound to the same values changes neither value nor error; code "
-            "generation has no error channel, a failing constant expression fails only when executed. The value operations "
-            "(ops::add..neg, contains, string_concat, ==, Ord, is_true, map insertion, the callee) are parameters of the theorems "
-            "because folder and VM share them. Tie: the harness generates expressions over the literal grammar (depth<=5, numeric "
-            "boundary zoo, containers, chains, keyword arguments), renders all 2^k (k<=6, 64 sampled beyond) hoisting variants on "
-            "the real engine (oracle: identical output / error kind, identical value, template loads), and compares the real "
-            "as_const, the LoadConst in the real instruction stream and the real values with the Lean model run on the real "
-            "parser's AST.",
+            "assertions, Not/In/Neg, list/tuple/map construction, static keyword arguments of calls, filters and tests, and the "
+            "never-folded constructs that sit between constants: attribute/item access with handle_undefined, slices, conditional "
+            "expressions with the silent undefined, filters, tests, global function calls) and of compile_expr's fold-first scheme: "
+            "whenever the folder yields a value, run-time evaluation yields the same value in every mode and context (so it never "
+            "masks an error); the emitted code computes exactly the unfolded run-time semantics; replacing any subset of literal "
+            "sub-expressions by variables bound to the same values changes neither value nor error; code generation has no error "
+            "channel, a failing constant expression fails only when executed. The value operations (ops::add..neg, contains, "
+            "string_concat, ==, Ord, is_true, map insertion, get_item/get_attr/slice, filters, tests, callees) are parameters of the "
+            "theorems because folder and VM share them. Tie: (a) tables regenerated from the source - operator arms of eval_binop/"
+            "eval_compare/compile_bin_op/emit_compare/compare_op/func_binop!/op_binop!/CompareAndPreserve proved equal to the model's, "
+            "the set of Expr variants as_const handles, the code generator's three compile-time special cases; (b) the harness "
+            "generates expressions over the literal grammar (depth<=5, numeric boundary zoo, floats, escaped strings, containers with "
+            "repeated keys, chains, keyword arguments, item/attribute access, slices, if-expressions, filters, tests) and templates with "
+            "literals in statement heads (if/elif, for, set, with, macro defaults, include/extends/import/from targets, autoescape, "
+            "filter arguments, call blocks), renders all 2^k (k<=6, 64 sampled beyond) hoisting variants on the real engine under the "
+            "four undefined modes (oracle: identical output / error kind, identical value via compile_expression, template loads), and "
+            "compares the real as_const, the LoadConst in the real instruction stream and the real values with the Lean model run on "
+            "the real parser's AST.",
     "design_ref": "DESIGN.md §3 C04",
-    "level_note": "Trusted: Lean kernel; hand transcription of as_const/eval_binop/eval_compare, compile_expr/compile_bin_op/"
-                  "compile_compare/compile_call_args and the VM handlers into MJ/Model/Fold.lean (the operator tables of "
-                  "eval_binop/eval_compare/compile_bin_op/emit_compare/compare_op/func_binop!/op_binop!/CompareAndPreserve are "
-                  "regenerated from the source and proved equal to the model's; the rest - as_const's traversal, evaluation order, "
-                  "jump structure - is validated by the differential streams). The theorems assume Prims.Lawful (no operation returns undefined, is_true(Bool b)=b, "
+    "level_note": "Trusted: Lean kernel; hand transcription of as_const's traversal, compile_expr/compile_compare/compile_call_args "
+                  "and the VM handlers into MJ/Model/Fold.lean (the operator tables and the list of folded variants are regenerated "
+                  "from the source and proved equal to the model's; evaluation order and jump structure are validated by the "
+                  "differential streams). The theorems assume Prims.Lawful (no operation returns undefined, is_true(Bool b)=b, "
                   "contains returns a bool) - proved for the model's transcription of value/ops.rs (concrete_prims_lawful), for the "
                   "real ops.rs only validated through the value correspondence - and Expr.WF (no undefined constant, Compare has >=1 "
-                  "operator), checked on the real parser's AST of every harness case. The concrete value operations (MJ/Model/FoldPrims.lean) are validated only where transcribed: "
-                  "integers >= 2^127 in arithmetic/comparison, NaN, float // % **, float text are reported unmodelled and covered "
-                  "by the hoisting oracle alone. Filters/tests/attribute access/if-expressions/slices are outside the fragment.",
+                  "operator), checked on the real parser's AST of every harness case. The concrete value operations "
+                  "(MJ/Model/FoldPrims.lean: exact binary64 on bit patterns incl. shortest float text, python string repr, i128 "
+                  "arithmetic, Ord/==, slices, a dozen builtin filters/tests) are validated by the value correspondence; what is not "
+                  "transcribed (inexact powf, NaN ordering, the filters upper/int/round, `is sequence` because lazy iterables are "
+                  "dumped as lists) is reported unmodelled (<3% of the expression cases) and covered by the hoisting oracle alone. "
+                  "Statements are covered by the hoisting oracle only (no statement model). Method calls, call of non-global "
+                  "callables, splat arguments and depth>5 are outside the box.",
 }
 
 FIELDS = ["key", "ast", "load", "k", "nvar", "lit", "hoist", "diff", "fold", "code", "vallit", "valhoist"]
@@ -51,7 +62,7 @@ def root_of(ast):
     t = ast.split()
     if not t:
         return "?"
-    if t[0] in ("b", "c") and len(t) > 1:
+    if t[0] in ("b", "c", "call", "filt", "test") and len(t) > 1:
         return t[0] + ":" + t[1]
     return t[0]
 
@@ -62,11 +73,22 @@ def ops_in(ast):
     for i, x in enumerate(t):
         if x == "b" and i + 1 < len(t):
             out.append(t[i + 1])
-        elif x in ("not", "neg", "L", "T", "M", "call"):
+        elif x in ("not", "neg", "L", "T", "M", "gi", "sl", "if"):
             out.append(x)
+        elif x == "ga":
+            out.append("ga")
+        elif x in ("call", "filt", "test") and i + 1 < len(t):
+            out.append(x + ":" + t[i + 1])
         elif x == "c":
             out.append("chain")
     return out
+
+
+def stmt_head(src):
+    """first statement keyword of a template source (or `expr` for `{{ … }}`)"""
+    import re
+    m = re.search(r"\{%-?\s*(\w+)", src)
+    return m.group(1) if m else "expr"
 
 
 def src_of(key):
@@ -78,15 +100,16 @@ def src_of(key):
 
 def run(r):
     r.rule = ("hand-written seeds (and/or on falsy operands, negated boundary literals, constant division by zero, `in`, `~`, "
-              "comparison chains, map literals with colliding/unhashable keys, floats, keyword arguments, undefined) plus random "
-              "expressions over the literal grammar (depth 1..5, <=40 literal leaves); for each, all 2^k hoisting subsets for k<=6 "
-              "and 64 sampled (none, all, singletons, co-singletons, random) beyond; a case is non-trivial when it has at least "
-              "one literal leaf and an operator")
+              "comparison chains, map literals with repeated/colliding keys, floats and their text, escaped strings, keyword "
+              "arguments, item/attribute access, slices, if-expressions, filters, tests, undefined) plus random expressions over "
+              "the grammar (depth 1..5, <=40 literal leaves) plus templates with literal expressions in statement heads (27 "
+              "statement shapes + seeds); for each, all 2^k hoisting subsets for k<=6 and 64 sampled (none, all, singletons, "
+              "co-singletons, random) beyond; a case is non-trivial when it has at least one literal leaf and an operator or statement")
     r.assumptions = ["context variables hold exactly the Value the front end builds for the literal (obtained by evaluating the literal alone)",
                      "the callee of a call does not depend on how its keyword arguments were built (the harness' callee returns them)",
                      "expressions deeper than 5 / with filters, tests, attribute access, slices, if-expressions are outside the box"]
     r.regen_tables(["C04_BINOP_KINDS", "C04_FOLD_BINOP", "C04_FOLD_COMPARE", "C04_FOLD_UNARY", "C04_CODEGEN_BINOP",
-                    "C04_CODEGEN_COMPARE", "C04_VM_BINOP"])
+                    "C04_CODEGEN_COMPARE", "C04_VM_BINOP", "C04_TRAVERSAL"])
     r.lean_prove("MJ.Props.C04", "MJ/Audit/C04.lean", extra_targets=["drive_c04"])
     exe = r.cargo_build("c04")
     if exe is None:
@@ -103,26 +126,31 @@ def run(r):
             r.broken.append(f"harness line with {len(f)} fields: {line[:200]}")
             continue
         cases.append(dict(zip(FIELDS, f)))
-    drv_in = "".join(c["key"].split()[0] + "\t" + c["ast"] + "\n" for c in cases)
-    model = r.driver("drive_c04", drv_in)
-    if model is None or len(model) != len(cases):
+    expr_idx = [i for i, c in enumerate(cases) if c["ast"] != "-"]
+    drv_in = "".join(cases[i]["key"].split()[0] + "\t" + cases[i]["ast"] + "\n" for i in expr_idx)
+    model_lines = r.driver("drive_c04", drv_in)
+    model = None
+    if model_lines is None or len(model_lines) != len(expr_idx):
         r.broken.append("model driver output does not line up with the harness cases")
-        model = None
+    else:
+        model = dict(zip(expr_idx, model_lines))
     r.exhaustive = False
     unmodelled = 0
     for i, c in enumerate(cases):
         key, ast = c["key"], c["ast"]
         k, nvar = int(c["k"]), int(c["nvar"])
-        ops = ops_in(ast)
-        r.count(key, k >= 1 and len(ops) >= 1, n=max(nvar, 1))
+        stmt = ast == "-"
+        ops = [] if stmt else ops_in(ast)
+        r.count(key, k >= 1 and (stmt or len(ops) >= 1), n=max(nvar, 1))
+        r.hist["stream"]["statement" if stmt else "expression"] += 1
         r.hist["mode"][key.split()[0]] += 1
-        r.hist["root"][root_of(ast)] += 1
+        r.hist["root"][stmt_head(src_of(key)) if stmt else root_of(ast)] += 1
         for o in set(ops):
             r.hist["operator"][o] += 1
         r.hist["leaves"][str(k) if k <= 6 else "7+"] += 1
         r.hist["outcome"][c["lit"].split(":")[0] + (":" + c["lit"].split(":")[1] if c["lit"].startswith("err") else "")] += 1
         r.hist["folded"][c["fold"].split()[0]] += 1
-        where = root_of(ast)
+        where = ("stmt:" + stmt_head(src_of(key))) if stmt else root_of(ast)
         # ---- oracle: the property on the implementation's own results
         if c["load"] != "ok":
             r.oracle_failure(key, f"loading `{{{{ {src_of(key)} }}}}` (or a hoisted variant) fails: {c['load']}", "load-fails:" + where)
@@ -137,6 +165,8 @@ def run(r):
         if "panic" in (c["lit"], c["hoist"], c["vallit"], c["valhoist"], c["code"]):
             r.hist["outcome"]["panic"] += 1
         # ---- tie: parser guarantees the model's well-formedness assumptions; real folder vs real code generator
+        if stmt:
+            continue
         if " X" in " " + ast:
             r.broken.append(f"harness AST dump met a node outside the fragment: {src_of(key)}")
             continue
@@ -160,6 +190,8 @@ def run(r):
         if d["supp"] != "1":
             unmodelled += 1
             r.hist["model"]["unmodelled primitive"] += 1
+            for why in d["supp"][2:].split(","):
+                r.hist["unmodelled"][why] += 1
             continue
         r.hist["model"]["compared"] += 1
         # every constant the real folder / code generator produces must be the one the (proved sound) model
@@ -178,6 +210,8 @@ def run(r):
                       "as_const": fold_impl[:60], "model": d["fold"][:60]})
     r.extra["unmodelled_cases"] = unmodelled
     r.extra["cases"] = len(cases)
+    r.extra["expression_cases"] = len(expr_idx)
+    r.extra["unmodelled_fraction_of_expression_cases"] = round(unmodelled / max(1, len(expr_idx)), 4)
 
 
 def replay(r, path):
